@@ -1,8 +1,11 @@
 # bin/check configuration of property C12 (a single dict expression)
 {'harness': 'c12',
  'props': 'Props/C12.v',
- 'models': ['Model/Heap.v'],
- 'trusted': ['sync.Pool enters as an arbitrary-choice multiset: Get may return any pooled node or call New; '
+ 'models': ['Model/Heap.v', 'Model/HeapReaders.v', 'Model/HeapReadersHier.v'],
+ 'trusted': ['the reader bridge (xml/json/hier/edi_reader_respects_api) is relative to the reader models of '
+             'Model/Stream.v and Model/Hier.v (validated against the implementation by C04/C05/C17); the columns of a '
+             'record and the xpath decisions enter as arbitrary functions',
+             'sync.Pool enters as an arbitrary-choice multiset: Get may return any pooled node or call New; '
              'the pool choice is an explicit argument of the create step and every theorem quantifies over '
              'it',
              'sync/atomic.AddInt64 is one atomic step (ids_unique_par quantifies over all interleavings of '
